@@ -43,7 +43,46 @@ Coverage audit (item -> stream that drives it ON THE IMPLEMENTATION; "P" = prope
   not driven here: gambit.metric.jaccard (the index, property C02); gambit.query.query / `gambit query` (need a reference
     database: C04/C05/C09 drive jaccarddist_matrix there); unsorted or duplicated arrays, negative values, non-integer
     dtypes, Python lists as signatures (outside "signatures"; C02's dtype stream judges refusals); the Cython kernel is
-    not re-compiled by mutations in this sandbox (only its Python callers can be mutated)."""
+    not re-compiled by mutations in this sandbox (only its Python callers can be mutated).
+
+State and aliasing (kind [seq]: a case is a script of 2-10 steps over a pool of SHARED caller objects; the harness keeps its
+own record of what every object holds and judges every computing step by every clause above.  Dimensions: (a) the object is
+reused by calls whose other arguments differ, in both orders; (b) the caller's object is unmodified after the call (item
+size + bytes of arrays, element values of collections, bounds, ids, index values, progress keywords); (c) a call failing
+part-way is followed by good calls on the same thread / objects / out= buffer; (d) the same call repeated gives the same
+bits and every array returned earlier keeps its bits; (e) worker thread, alternating threads, two calls at once):
+  entry point              object that outlives the call                                   a  b  c  d  e   where
+  jaccarddist (positional, the caller's two arrays (the signed -> unsigned cast is a VIEW   x  x  x  x  x   dist steps: the pool's array objects
+    keyword, raw extension)  of the same memory); result is a Python float                                 meet every partner / collection; 'rewrite':
+                                                                                                          overwritten in place between identical calls;
+                                                                                                          failing call: non-integer array, either side
+  jaccarddist_array        query array; refs collection (SignatureArray -> views of         x  x  x  x  x   array steps; refs of 9 collection types and
+                             values / bounds, others iterated); out= (DOCUMENTED target,                   2 sizes; out= none / fresh / one shared buffer
+                             returned); with out=None the result must be the caller's own                  per shape kept over the script (stale cells)
+  jaccarddist_matrix       queries (len + iteration), refs (a plain sequence is wrapped     x  x  x  x  x   matrix steps; ref_indices objects list / tuple
+                             per call), ref_indices (sliced per chunk), out=, chunksize,                   / int64 / int32 array / NumPy-int list with
+                             progress= (class, shared ProgressConfig with kw dict, factory)               negative entries, shared over collections
+  jaccarddist_pairwise     sigs, indices (np.asarray: an ndarray argument IS the caller's   x  x  x  x  x   pairwise steps, flat and square
+                             object), out=, progress=
+  collections              SignatureArray (values, bounds; a slice shares the parent's      x  x  x  x  x   'set' / 'append' / 'pop' through the list or
+                             memory), SignatureList / plain list / tuple (hold the caller's               MutableSequence API, in-place overwrite of a
+                             arrays), AnnotatedSignatures (wrapper + the list it wraps),                  slot of a values array, of an array object
+                             HDF5Signatures (open file, read at every index)                              held by reference, of an index object
+  gambit dist              two signature files (re-written by the harness between steps),   x  x  x  x  -   cli steps inside scripts: --qs/--rs and
+                             output file, process-wide OpenMP thread count set by -c                      --square over the same collections, both orders;
+                                                                                                          refused invocations (missing file, --square
+                                                                                                          with --rs, other k) before good ones
+                             (restored by the harness), no module state in gambit.metric
+  failing calls (c): index out of range in a late chunk, non-integer array in the middle of refs / queries, caller-supplied
+    sequence that raises at element n (queries of matrix, refs of array), progress meter that raises after n cells, wrong out=
+    shape / dtype, chunksize 0; they share collections, index objects and the out= buffer with the good calls around them and
+    may raise anything (or return): only the caller's objects and the later calls are judged.
+  streams: state-sequences (random scripts), state-sequences-reversed (same script backwards when nothing is changed in
+    between), state-change-between-calls (collection type x role x change, exhaustive product), state-failed-call-between
+    (api x failure x collection type, product), state-one-object-two-collections (index object / query against collections of
+    two sizes, orders XYX and YXY), state-sequences-file-backed (one HDF5Signatures collection), state-sequences-cli.
+  not driven: use after fork (not advertised; the package forks only to compute signatures), an object changed DURING a
+    call, truncated / concurrently rewritten signature files (C19), gambit.query sessions (C04/C05/C09)."""
 from fractions import Fraction
 
 import numpy as np
@@ -63,14 +102,25 @@ RULE = ('triples (A,B,C) of sorted duplicate-free arrays with per-set dtypes; ch
         'clause, then jaccarddist on the same objects again); add-common-* (absent k-mers added at any position, chains, '
         'stored dtypes, both orders, bulk function: strictly decreasing; non-trivial: sets intersect, differ, and some k-mer '
         'is not above the maximum); mid-size-triples (seeded sets of 2*10^4..10^6 elements); cli-dist (printed 4-decimal '
-        'matrices of gambit dist); non-trivial for collections: at least two pairs that intersect without being equal')
+        'matrices of gambit dist); non-trivial for collections: at least two pairs that intersect without being equal. '
+        'state-* (kind seq): scripts of calls over shared caller objects (arrays, 9 collection types of two sizes, index objects '
+        'with negative entries, one out= buffer per shape, a progress configuration) with caller-side changes between calls, '
+        'calls failing part-way, worker threads and two calls at once; every computing step judged by every clause on the '
+        "harness's own record, plus: caller objects unmodified, same call -> same bits, arrays returned earlier unchanged; "
+        'non-trivial: two computing steps share an object and the pool has two pairs that intersect without being equal')
 TRUSTED = ['tools/pyx2v.py (Cython subset -> Gallina; C integer / binary32 semantics)',
-           'Flocq binary32 model of C float division (validated bit-for-bit by the run)']
+           'Flocq binary32 model of C float division (validated bit-for-bit by the run)',
+           'the script interpreter of kind seq (its record of what each collection holds is compared with the collection at the '
+           'end of every script)']
 ASSUMPTIONS = ['inputs are sorted and duplicate-free', 'rounding-sensitive statements are claimed for |AuB| <= 2^24 '
                '(every k <= 12); beyond that see known findings C15-f1/f2',
                'read-only and non-native-byte-order arrays are outside the domain (the wrappers refuse them): judged by the '
                'property predicate alone when a value is returned; the Coq model covers the two-signature kernel only, the bulk '
-               'entry points, storage forms and the CLI are judged by the property predicate and the integer ratio oracle']
+               'entry points, storage forms and the CLI are judged by the property predicate and the integer ratio oracle',
+               'state sequences: the caller changes its objects between calls, never during one; an out= array is the only argument an '
+               'entry point may write to (documented); a call made to fail may raise anything or return, only the calls after it and '
+               'the caller objects are judged; modification of a caller object = item size / bytes / element values / index values '
+               'differ (a same-width signed-unsigned view or a converted bounds dtype is not one)']
 
 SLACK = Fraction(1, 2 ** 22)
 
@@ -755,13 +805,948 @@ def k_cli(ctx, cases):
 			ctx.violation('cli', c, f'gambit dist {c["mode"]}: {what} (signatures {sigs})')
 
 
+# ------------------------------------------------------------------------------------------------
+# state and aliasing: short scripts of calls over a small pool of shared caller objects (see the section "state and
+# aliasing" of the module docstring).  A case carries the pool (k-mer sets, dtypes, collections, index objects) and the
+# script as literals; the harness keeps its OWN record of what every collection / index object holds (updated by the
+# caller-side changes of the script) and judges every step from that record.
+# ------------------------------------------------------------------------------------------------
+
+SEQ_MUTABLE = ('plain', 'list', 'annotated-list')              # the caller may replace an element
+SEQ_RESIZABLE = ('plain', 'list')                                # ... and append / pop
+SEQ_INPLACE = ('array', 'slice', 'i4bounds', 'annotated')      # one values array: an element is overwritten in place
+SEQ_BYREF = ('plain', 'tuple', 'list', 'annotated-list')       # hold the caller's array objects themselves (no copy)
+SEQ_CHANGES = ('set', 'append', 'pop', 'setidx', 'rewrite')
+SEQ_COMPUTE = ('dist', 'array', 'matrix', 'pairwise', 'cli', 'par')
+_SEQ_STATS = {}
+
+
+def _stat(key, n=1):
+	_SEQ_STATS[key] = _SEQ_STATS.get(key, 0) + n
+
+
+class _RaisingSeq:
+	"""a caller-supplied sequence of signatures whose element number `at` cannot be produced"""
+
+	def __init__(self, items, at):
+		self.items, self.at = list(items), at
+
+	def __len__(self):
+		return len(self.items)
+
+	def __getitem__(self, i):
+		if isinstance(i, slice):
+			raise TypeError('no slices')
+		if i < 0 or i >= len(self.items):
+			raise IndexError(i)
+		if i == self.at:
+			raise RuntimeError('the sequence supplied by the caller failed')
+		return self.items[i]
+
+	def __iter__(self):
+		for i in range(len(self.items)):
+			yield self[i]
+
+
+class _Meter:
+	"""a caller-supplied progress meter; increment raises once `at` cells have been reported (None: never)"""
+
+	def __init__(self, total, at=None):
+		self.total, self.n, self.at, self.closed = total, 0, at, False
+
+	def increment(self, delta=1):
+		self.n += delta
+		if self.at is not None and self.n >= self.at:
+			raise RuntimeError('the progress meter supplied by the caller failed')
+
+	def moveto(self, n):
+		self.n = n
+
+	def close(self):
+		self.closed = True
+
+	def __enter__(self):
+		return self
+
+	def __exit__(self, *exc):
+		self.close()
+
+
+def _omp_here(n):
+	"""OpenMP thread count of the calling thread (a new Python thread starts with the default, which is slow here)"""
+	import gambit._cython.threads as th
+	if n:
+		th.omp_set_num_threads(n)
+
+
+def _fp_arr(a):
+	"""the memory of an array as the caller sees it: item size, shape, bytes (a same-width signed / unsigned view is equal)"""
+	a = np.asarray(a)
+	return (a.dtype.itemsize, a.shape, a.tobytes())
+
+
+def _fp_coll(cont):
+	"""what a caller can observe of a collection: element values and dtypes, lengths, bounds, ids, k-mer spec"""
+	from gambit.sigs.base import SignatureArray, SignatureList, AnnotatedSignatures
+	if isinstance(cont, AnnotatedSignatures):
+		return ('AnnotatedSignatures', _fp_coll(cont.signatures), tuple(cont.ids), repr(cont.meta))
+	if isinstance(cont, SignatureArray):
+		return ('SignatureArray', _fp_arr(cont.values), tuple(int(x) for x in cont.bounds), repr(cont.kmerspec))
+	if isinstance(cont, SignatureList):
+		return ('SignatureList', str(np.dtype(cont.dtype)), repr(cont.kmerspec), tuple(_fp_arr(e) for e in cont))
+	if isinstance(cont, (list, tuple)):
+		return (type(cont).__name__, tuple(_fp_arr(e) for e in cont))
+	return (type(cont).__name__, len(cont), str(np.dtype(cont.dtype)), repr(cont.kmerspec), tuple(str(x) for x in cont.ids),
+	        tuple(tuple(int(x) for x in cont[i]) for i in range(len(cont))))
+
+
+def _fp_idx(obj):
+	if isinstance(obj, np.ndarray):
+		return (obj.dtype.str,) + _fp_arr(obj)
+	return (type(obj).__name__, tuple(int(v) for v in obj))
+
+
+def _f4bits(x):
+	"""bit patterns of a result (array or scalars) as an independent uint32 array"""
+	return np.array(np.asarray(x, dtype='f4'), dtype='f4', order='C').view('u4').copy()
+
+
+class _Pool:
+	"""the caller's long-lived objects of one script"""
+
+	def __init__(self, c):
+		from gambit.util.progress import TestProgressMeter
+		self.c = c
+		self.sigs = [list(s) for s in c['sigs']]
+		self.arrs = [_arr(s, dt) for s, dt in zip(c['sigs'], c['dts'])]
+		# the harness's record: content[i] = number of the k-mer set the array object i holds now (the caller may overwrite an
+		# array in place); members[t] = array objects (collections holding references) or k-mer sets (collections holding copies)
+		self.content = list(range(len(self.sigs)))
+		self.members = [list(k['members']) for k in c['colls']]
+		self.conts = [k['cont'] for k in c['colls']]
+		self.colls = []
+		self.files = []
+		for t, k in enumerate(c['colls']):
+			arrs = [self.arrs[i] for i in k['members']]
+			if k['cont'] == 'hdf5':
+				self.colls.append(self._hdf5(arrs, t))
+			else:
+				self.colls.append(_container(arrs, k['cont'], k['cdt']))
+		# the caller keeps the SignatureList it wrapped and changes elements through it
+		self.inner = [cont.signatures if kind == 'annotated-list' else None for cont, kind in zip(self.colls, self.conts)]
+		self.idxvals = [list(x['vals']) for x in c['idxs']]
+		self.idxs = [_idx(x['vals'], x['how']) for x in c['idxs']]
+		self.outs = {}
+		self.pconf = TestProgressMeter.config(allow_decrement=False)
+		self.results = []          # (step, array object, bits when returned, shared-buffer key or None)
+		self.executor = None
+
+	def _hdf5(self, arrs, t):
+		import os
+		from gambit.kmers import KmerSpec
+		from gambit.sigs import SignaturesMeta, SignatureList, AnnotatedSignatures, dump_signatures, load_signatures
+		ks = KmerSpec(11, 'ATGAC')
+		path = os.path.join(_scratch(), f'seq-{t}.gs')
+		if os.path.exists(path):
+			os.remove(path)
+		ids = np.array([f'g{i}' for i in range(len(arrs))], dtype=object)
+		dump_signatures(path, AnnotatedSignatures(SignatureList([a.astype(ks.index_dtype) for a in arrs], ks, dtype=ks.index_dtype), ids,
+		                                          SignaturesMeta(id_attr='key')), 'hdf5')
+		f = load_signatures(path)
+		self.files.append(f)
+		return f
+
+	def close(self):
+		for f in self.files:
+			try:
+				f.close()
+			except Exception:
+				pass
+		if self.executor is not None:
+			self.executor.shutdown(wait=True)
+
+	def worker(self):
+		if self.executor is None:
+			from concurrent.futures import ThreadPoolExecutor
+			self.executor = ThreadPoolExecutor(1, initializer=_omp_here, initargs=(self.c.get('omp', 1),))
+		return self.executor
+
+	def fingerprint(self):
+		fp = {f'signature {i}': (a.dtype.str, bool(a.flags.writeable)) + _fp_arr(a) for i, a in enumerate(self.arrs)}
+		for t, cont in enumerate(self.colls):
+			fp[f'collection {t} ({self.conts[t]})'] = _fp_coll(cont)
+		for t, obj in enumerate(self.idxs):
+			fp[f'index object {t} ({self.c["idxs"][t]["how"]})'] = _fp_idx(obj)
+		fp['progress configuration'] = (self.pconf.callable, tuple(sorted(self.pconf.kw.items())))
+		return fp
+
+	def recorded(self, t):
+		"""what collection t must hold according to the harness's own record: (dtype-free) lists of k-mers"""
+		return [self.sigs[i] for i in self.resolve(t)]
+
+	def resolve(self, t):
+		"""numbers of the k-mer sets collection t holds now"""
+		return [self.content[i] for i in self.members[t]] if self.conts[t] in SEQ_BYREF else list(self.members[t])
+
+	def held(self, t):
+		return [[int(x) for x in s] for s in self.colls[t]]
+
+	def sel(self, t, m):
+		"""pool numbers of the signatures of collection t picked by index object m (None: all)"""
+		mem = self.resolve(t)
+		return list(mem) if m is None else [mem[v] for v in self.idxvals[m]]
+
+	def out(self, shape, how, fresh=False):
+		if how == 'none':
+			return None, None
+		if how == 'nan' or fresh:
+			return np.full(shape, np.nan, dtype='f4'), None
+		key = tuple(shape)
+		if key not in self.outs:
+			self.outs[key] = np.full(shape, 0.25, dtype='f4')
+		self.results = [r for r in self.results if r[3] != key]       # documented: an out= buffer is overwritten
+		return self.outs[key], key
+
+	def progress(self, how):
+		from gambit.util.progress import TestProgressMeter
+		return {None: None, 'none': None, 'cls': TestProgressMeter, 'config': self.pconf}[how]
+
+
+def _seq_describe(st):
+	return ' '.join(f'{k}={st[k]}' for k in st if k != 'steps') if st['op'] != 'par' else 'par[' + ' | '.join(_seq_describe(s) for s in st['steps']) + ']'
+
+
+def _seq_call(P, st, fresh=False):
+	"""run one computing step on the pool; returns (cells, result array or None, shared-buffer key); cells are
+	(pool number, pool number, value)"""
+	from gambit.metric import jaccarddist_array, jaccarddist_matrix, jaccarddist_pairwise
+	op = st['op']
+	if op == 'dist':
+		a, b = st['a'], st['b']
+		v = _dist_call(st.get('call', 'positional'), P.arrs[a], P.arrs[b])
+		w = _dist_call(st.get('call', 'positional'), P.arrs[b], P.arrs[a])
+		return [(P.content[a], P.content[b], v), (P.content[b], P.content[a], w)], None, None
+	if op == 'array':
+		cols = P.sel(st['refs'], None)
+		out, key = P.out((len(cols),), st.get('out', 'none'), fresh)
+		R = jaccarddist_array(P.arrs[st['q']], P.colls[st['refs']]) if out is None else jaccarddist_array(P.arrs[st['q']], P.colls[st['refs']], out=out)
+		if R.shape != (len(cols),):
+			raise _Shape(f'result of shape {R.shape} for {len(cols)} references')
+		return [(P.content[st['q']], cols[t], R[t]) for t in range(len(cols))], R, key
+	if op == 'matrix':
+		rows, cols = P.sel(st['qs'], None), P.sel(st['refs'], st.get('idx'))
+		out, key = P.out((len(rows), len(cols)), st.get('out', 'none'), fresh)
+		kw = {}
+		if st.get('idx') is not None:
+			kw['ref_indices'] = P.idxs[st['idx']]
+		if st.get('chunksize') is not None:
+			kw['chunksize'] = st['chunksize']
+		if out is not None:
+			kw['out'] = out
+		if st.get('progress'):
+			kw['progress'] = P.progress(st['progress'])
+		M = jaccarddist_matrix(P.colls[st['qs']], P.colls[st['refs']], **kw)
+		if M.shape != (len(rows), len(cols)):
+			raise _Shape(f'result of shape {M.shape} for {len(rows)} queries and {len(cols)} references')
+		return [(rows[i], cols[t], M[i, t]) for i in range(len(rows)) for t in range(len(cols))], M, key
+	if op == 'pairwise':
+		sel = P.sel(st['sigs'], st.get('idx'))
+		m = len(sel)
+		flat = bool(st.get('flat'))
+		out, key = P.out((m * (m - 1) // 2,) if flat else (m, m), st.get('out', 'none'), fresh)
+		kw = dict(flat=flat)
+		if st.get('idx') is not None:
+			kw['indices'] = P.idxs[st['idx']]
+		if out is not None:
+			kw['out'] = out
+		if st.get('progress'):
+			kw['progress'] = P.progress(st['progress'])
+		R = jaccarddist_pairwise(P.colls[st['sigs']], **kw)
+		if R.shape != ((m * (m - 1) // 2,) if flat else (m, m)):
+			raise _Shape(f'result of shape {R.shape} for {m} signatures, flat={flat}')
+		if flat:
+			cells, k = [], 0
+			for s in range(m):
+				for t in range(s + 1, m):
+					cells.append((sel[s], sel[t], R[k]))
+					k += 1
+			return cells, R, key
+		return [(sel[s], sel[t], R[s, t]) for s in range(m) for t in range(m)], R, key
+	raise ValueError(op)
+
+
+class _Shape(Exception):
+	pass
+
+
+def _seq_fail_call(P, st):
+	"""a call that cannot succeed (bad input in the middle of a batch, a caller-supplied sequence / progress meter that
+	raises part-way, a wrong out= array); it shares the pool's collections, index objects and out= buffers"""
+	from gambit.metric import jaccarddist_array, jaccarddist_matrix, jaccarddist_pairwise
+	api, how, at = st['api'], st['how'], st.get('at', 1)
+	bad = np.array([0.5, 1.5])
+	kw = {}
+	if api == 'dist':
+		# a non-integer array in either position, the caller's good array in the other
+		return _dist_call('keyword' if at % 2 else 'positional', *((P.arrs[st['a']], bad) if how == 'bad-second' else (bad, P.arrs[st['a']])))
+	if api == 'array':
+		refs = P.colls[st['refs']]
+		n = len(P.members[st['refs']])
+		if how == 'bad-ref':
+			refs = list(refs)
+			refs.insert(min(at, len(refs)), bad)
+			n += 1
+		elif how == 'raising-seq':
+			refs = _RaisingSeq(list(refs), min(at, n - 1))
+		shape = (n,)
+		if how == 'bad-out':
+			kw['out'] = np.zeros((n + 1,), dtype='f4') if at % 2 else np.zeros((n,), dtype='f8')
+		else:
+			kw['out'] = P.out(shape, 'shared')[0]
+		return jaccarddist_array(P.arrs[st['q']], refs, **kw)
+	if api == 'matrix':
+		qs, refs = P.colls[st['qs']], P.colls[st['refs']]
+		nq, n = len(P.members[st['qs']]), len(P.members[st['refs']])
+		nr = n
+		if st.get('idx') is not None:
+			kw['ref_indices'] = P.idxs[st['idx']]
+			nr = len(P.idxvals[st['idx']])
+		if how == 'oob-index':
+			vals = list(range(n)) if st.get('idx') is None else list(P.idxvals[st['idx']])
+			vals.insert(min(at, len(vals)), n + 2 if at % 2 else -(n + 3))
+			kw['ref_indices'] = _idx(vals, st.get('idxtype', 'list'))
+			nr = len(vals)
+		elif how == 'bad-ref':
+			refs = list(refs)
+			refs.insert(min(at, len(refs)), bad)
+			if 'ref_indices' not in kw:
+				nr += 1
+			else:
+				kw['ref_indices'] = list(range(len(refs)))
+				nr = len(refs)
+		elif how == 'bad-query':
+			qs = list(qs)
+			qs.insert(min(at, len(qs)), bad)
+			nq += 1
+		elif how == 'raising-seq':
+			qs = _RaisingSeq(list(qs), min(at, nq - 1))
+		elif how == 'raising-progress':
+			kw['progress'] = lambda total, initial=0, **k: _Meter(total, max(1, min(at, total)))
+		if how == 'chunk0':
+			kw['chunksize'] = 0
+		elif st.get('chunksize') is not None:
+			kw['chunksize'] = st['chunksize']
+		if how == 'bad-out':
+			kw['out'] = np.zeros((nq, nr + 1), dtype='f4') if at % 2 else np.zeros((nq, nr), dtype='f8')
+		else:
+			kw['out'] = P.out((nq, nr), 'shared')[0]
+		return jaccarddist_matrix(qs, refs, **kw)
+	if api == 'pairwise':
+		sigs = P.colls[st['sigs']]
+		n = len(P.members[st['sigs']])
+		m = n
+		flat = bool(st.get('flat'))
+		if st.get('idx') is not None:
+			kw['indices'] = P.idxs[st['idx']]
+			m = len(P.idxvals[st['idx']])
+		if how == 'oob-index':
+			vals = list(range(n)) if st.get('idx') is None else list(P.idxvals[st['idx']])
+			vals.insert(min(at, len(vals)), n + 2 if at % 2 else -(n + 3))
+			kw['indices'] = _idx(vals, st.get('idxtype', 'list'))
+			m = len(vals)
+		elif how == 'bad-ref':
+			sigs = list(sigs)
+			sigs.insert(min(max(at, 1), len(sigs)), bad)
+			if 'indices' in kw:
+				kw['indices'] = list(range(len(sigs)))
+			m = len(sigs)
+		elif how == 'raising-progress':
+			kw['progress'] = lambda total, initial=0, **k: _Meter(total, max(1, min(at, total)))
+		shape = (m * (m - 1) // 2,) if flat else (m, m)
+		if how == 'bad-out':
+			kw['out'] = np.zeros(tuple(k + 1 for k in shape), dtype='f4') if at % 2 else np.zeros(shape, dtype='f8')
+		else:
+			kw['out'] = P.out(shape, 'shared')[0]
+		return jaccarddist_pairwise(sigs, flat=flat, **kw)
+	raise ValueError(api)
+
+
+def _seq_mutate(P, st):
+	"""the caller changes one of the objects between two calls (the harness's record follows)"""
+	op = st['op']
+	if op == 'set':
+		t, p, i = st['coll'], st['pos'], st['sig']
+		cont = P.colls[t]
+		if P.conts[t] in ('plain', 'list'):
+			cont[p] = P.arrs[i]
+		elif P.conts[t] == 'annotated-list':
+			P.inner[t][p] = P.arrs[i]
+		else:
+			slot = cont[p]
+			if len(slot) != len(P.arrs[i]):
+				_stat('caller-side changes skipped')
+				return
+			np.copyto(slot, P.arrs[i], casting='unsafe')
+		P.members[t][p] = i if P.conts[t] in SEQ_BYREF else P.content[i]
+	elif op == 'append':
+		P.colls[st['coll']].append(P.arrs[st['sig']])
+		P.members[st['coll']].append(st['sig'])
+	elif op == 'pop':
+		P.colls[st['coll']].pop()
+		P.members[st['coll']].pop()
+	elif op == 'rewrite':
+		# the caller overwrites one of its arrays in place (same length): every collection holding that object follows
+		i, j = st['sig'], st['to']
+		if len(P.arrs[i]) != len(P.sigs[j]) or not _fits(P.c['dts'][i], max(P.sigs[j], default=0)):
+			_stat('caller-side changes skipped')
+			return
+		P.arrs[i][:] = _arr(P.sigs[j], P.c['dts'][i])
+		P.content[i] = j
+	elif op == 'setidx':
+		P.idxs[st['idx']][st['pos']] = st['val']
+		P.idxvals[st['idx']][st['pos']] = st['val']
+	else:
+		raise ValueError(op)
+
+
+def _seq_judge(ctx, c, cells, via):
+	"""all cells that stand for the same ordered pair agree; then every clause on the table of the signatures involved"""
+	nodes = sorted({i for i, _, _ in cells} | {j for _, j, _ in cells})
+	pos = {p: t for t, p in enumerate(nodes)}
+	D = [[None] * len(nodes) for _ in nodes]
+	for i, j, v in cells:
+		old = D[pos[i]][pos[j]]
+		if old is not None and f32_bits(old) != f32_bits(v) and not (v != v and old != old):
+			ctx.violation('seq', c, f'{via}: two cells for the pair of pool signatures ({i},{j}) differ: {float(old)!r} and {float(v)!r}', pair=[i, j])
+			return True
+		D[pos[i]][pos[j]] = v
+	return _judge(ctx, 'seq', c, D, _su_table([c['sigs'][p] for p in nodes]), f'{via}; d(i,j) numbers the pool signatures {nodes}')
+
+
+def _seq_cli(ctx, c, P, st, t):
+	"""gambit dist on signature files holding what the collections hold now (written by the harness from its own record)"""
+	import csv
+	import os
+	from click.testing import CliRunner
+	import gambit.cli
+	from gambit.kmers import KmerSpec
+	from gambit.sigs import SignatureList, AnnotatedSignatures, SignaturesMeta, dump_signatures
+	ks = KmerSpec(11, 'ATGAC')
+	d = _scratch()
+	paths = {}
+	for name, k in (('q', st['qs']), ('r', st.get('rs'))):
+		if k is None:
+			continue
+		paths[name] = os.path.join(d, f'seq-cli-{k}.gs')
+		if os.path.exists(paths[name]):
+			os.remove(paths[name])
+		arrs = [np.array(s, dtype=ks.index_dtype) for s in P.recorded(k)]
+		ids = np.array([f'c{k}s{i}' for i in range(len(arrs))], dtype=object)
+		dump_signatures(paths[name], AnnotatedSignatures(SignatureList(arrs, ks, dtype=ks.index_dtype), ids, SignaturesMeta(id_attr='key')), 'hdf5')
+	out = os.path.join(d, 'seq-cli-out.csv')
+	if os.path.exists(out):
+		os.remove(out)
+	args = ['dist', '--qs', paths['q'], '-o', out] + (['--square'] if 'r' not in paths else ['--rs', paths['r']])
+	if st.get('cores'):
+		args += ['-c', str(st['cores'])]
+	if st.get('bad'):
+		# an invocation that cannot succeed, over the same files: only the invocations after it are judged
+		args += {'missing-rs': ['--rs', os.path.join(d, 'seq-cli-none.gs')], 'square-and-rs': ['--square', '--rs', paths['q']],
+		         'other-k': ['-k', '9', '-p', 'ATGAC']}[st['bad']]
+		with _omp(0):
+			res = CliRunner().invoke(gambit.cli.cli, args)
+		_stat('failing invocations ' + ('refused' if res.exit_code != 0 else 'that returned'))
+		return []
+	with _omp(0):
+		res = CliRunner().invoke(gambit.cli.cli, args)
+	rows, cols = P.resolve(st['qs']), P.resolve(st['qs'] if st.get('rs') is None else st['rs'])
+	via = f'step {t} gambit dist ({_seq_describe(st)})'
+	try:
+		if res.exit_code != 0 or res.exception is not None:
+			raise RuntimeError(f'exit {res.exit_code}: {res.exception!r} {(res.output or "")[-300:]}')
+		with open(out, newline='') as f:
+			lines = list(csv.reader(f))
+		M = [[float(x) for x in r[1:]] for r in lines[1:]]
+		if len(M) != len(rows) or any(len(r) != len(cols) for r in M):
+			raise RuntimeError(f'{len(M)} rows for {len(rows)} x {len(cols)} signatures')
+	except Exception as e:
+		ctx.violation('seq', c, f'{via}: no distance matrix for valid signatures: {type(e).__name__}: {e}', step=t)
+		return None
+	cells = {}
+	for i, a in enumerate(rows):
+		for j, b in enumerate(cols):
+			v = M[i][j]
+			A, B = set(P.sigs[a]), set(P.sigs[b])
+			s, u = len(A ^ B), len(A | B)
+			what = None
+			if not (0 <= v <= 1):
+				what = f'outside [0,1]'
+			elif (v == 0) != (s == 0):
+				what = f'but sets equal is {s == 0}'
+			elif (v == 1) != (u > 0 and s == u):
+				what = f'but disjoint-and-not-both-empty is {u > 0 and s == u}'
+			elif u and abs(Fraction(v) - Fraction(s, u)) > Fraction(1, 2 ** 24) + Fraction(51, 10 ** 6):
+				what = f'is not the distance {s}/{u} of the two sets printed with 4 decimals'
+			elif cells.get((a, b), v) != v or cells.get((b, a), v) != v:
+				what = f'but another cell for the same two signatures (either order) prints {cells.get((a, b), cells.get((b, a)))!r}'
+			if what:
+				ctx.violation('seq', c, f'{via}: cell ({i},{j}) = {v!r} {what} (pool signatures {a} and {b})', step=t)
+				return None
+			cells[(a, b)] = v
+	return M
+
+
+def _seq_nontrivial(c):
+	"""at least two computing steps share a caller object, and the pool has two pairs of sets that intersect without
+	being equal"""
+	use = {}
+	n = 0
+
+	def walk(steps):
+		nonlocal n
+		for st in steps:
+			if st['op'] == 'par':
+				walk(st['steps'])
+				continue
+			if st['op'] not in SEQ_COMPUTE and st['op'] != 'fail':
+				continue
+			n += st['op'] != 'fail'
+			for f, tag in (('qs', 'coll'), ('refs', 'coll'), ('sigs', 'coll'), ('rs', 'coll'), ('idx', 'idx'), ('q', 'sig'), ('a', 'sig'), ('b', 'sig')):
+				if st.get(f) is not None:
+					use[(tag, st[f])] = use.get((tag, st[f]), 0) + 1
+	walk(c['steps'])
+	SU = _su_table(c['sigs'])
+	pairs = sum(1 for i in range(len(SU)) for j in range(i) if 0 < SU[i][j][0] < SU[i][j][1])
+	return n >= 2 and any(v >= 2 for v in use.values()) and pairs >= 2
+
+
+def k_seq(ctx, cases):
+	"""statefulness and aliasing: a short script of calls (jaccarddist / jaccarddist_array / _matrix / _pairwise / gambit
+	dist) over a small pool of SHARED caller objects -- signature arrays, collections of several types and sizes, index
+	objects, out= buffers, a progress configuration -- with the caller changing an object between two calls, calls that
+	fail part-way, calls from a second thread and two calls at once.  Every computing step is judged by every clause of
+	the property on the harness's own record of what the objects hold; after every step the caller's objects must be what
+	they were (out= buffers excepted: documented), the same call repeated must give the same bits, and no array returned
+	earlier may have changed"""
+	for c in cases:
+		ctx.case(c, nontrivial=_seq_nontrivial(c))
+		try:
+			P = _Pool(c)
+		except Exception as e:
+			ctx.violation('seq', c, f'building the collections of valid signatures raised {type(e).__name__}: {e}')
+			continue
+		omp = _omp(c.get('omp', 1))
+		omp.__enter__()
+		try:
+			_seq_run(ctx, c, P)
+		finally:
+			omp.__exit__()
+			P.close()
+
+
+def _seq_run(ctx, c, P):
+	mode = c.get('thread', 0)
+
+	def on(t, fn):
+		"""run fn on the main thread or on the script's worker thread"""
+		if mode == 1 or (mode == 2 and t % 2):
+			return P.worker().submit(fn).result()
+		return fn()
+
+	def unchanged(before, t, st):
+		after = P.fingerprint()
+		diff = [k for k in before if before[k] != after[k]]
+		if diff:
+			ctx.violation('seq', c, f'step {t} ({_seq_describe(st)}) modified an object of the caller: {", ".join(diff)}', step=t, objects=diff)
+			return False
+		return True
+
+	def aliased(t, st):
+		for (t0, arr, bits, key) in P.results:
+			now = _f4bits(arr)
+			if now.shape != bits.shape or (now != bits).any():
+				ctx.violation('seq', c, f'the array returned by step {t0} changed during step {t} ({_seq_describe(st)}): a result is not the '
+				              f'caller\'s own (was bits {bits.ravel()[:8].tolist()}, now {now.ravel()[:8].tolist()})', step=t, earlier=t0)
+				return True
+		return False
+
+	for t, st in enumerate(c['steps']):
+		op = st['op']
+		via = f'step {t} ({_seq_describe(st)})'
+		if op in SEQ_CHANGES:
+			try:
+				_seq_mutate(P, st)
+			except Exception as e:
+				ctx.violation('seq', c, f'{via}: the caller can no longer change its own object after the calls before: {type(e).__name__}: {e}', step=t)
+				return
+			_stat('caller-side changes')
+			continue
+		before = P.fingerprint()
+		if op == 'fail':
+			try:
+				on(t, lambda: _seq_fail_call(P, st))
+				_stat(f'failing calls that returned ({st["api"]} {st["how"]})')
+			except Exception as e:
+				_stat(f'failing calls refused ({type(e).__name__})')
+			if not unchanged(before, t, st) or aliased(t, st):
+				return
+			continue
+		if op == 'cli':
+			M = _seq_cli(ctx, c, P, st, t)
+			if M is None or not unchanged(before, t, st):
+				return
+			if not st.get('bad'):
+				_stat('steps judged')
+				M2 = _seq_cli(ctx, c, P, st, t)
+				if M2 is None:
+					return
+				if M2 != M:
+					ctx.violation('seq', c, f'step {t} ({_seq_describe(st)}): the same invocation on the same files prints different cells the second time', step=t)
+					return
+				_stat('steps repeated')
+			continue
+		subs = st['steps'] if op == 'par' else [st]
+		try:
+			if op == 'par':
+				import threading
+				from concurrent.futures import ThreadPoolExecutor
+				gate = threading.Barrier(len(subs))
+				def one(s):
+					gate.wait(10)
+					return _seq_call(P, s)
+				with ThreadPoolExecutor(len(subs), initializer=_omp_here, initargs=(c.get('omp', 1),)) as ex:
+					futs = [ex.submit(one, s) for s in subs]
+					got = [f.result() for f in futs]
+			else:
+				got = [on(t, lambda: _seq_call(P, st))]
+		except Exception as e:
+			ctx.violation('seq', c, f'{via} raised {type(e).__name__}: {e} for valid signatures and documented options: no distances', step=t)
+			return
+		snaps = []
+		for s, (cells, R, key) in zip(subs, got):
+			if _seq_judge(ctx, c, cells, f'step {t} ({_seq_describe(s)})'):
+				return
+			_stat('steps judged')
+			snaps.append(_f4bits(R if R is not None else [v for _, _, v in cells]))
+			if R is not None:
+				P.results.append((t, R, snaps[-1], key))
+		if not unchanged(before, t, st) or aliased(t, st):
+			return
+		# the same call once more (a fresh out= array where one was passed; on the other thread when the script alternates):
+		# same bits, and every array returned so far stays what it was
+		for s, snap in zip(subs, snaps):
+			try:
+				cells2, R2, _ = on(t + 1, lambda: _seq_call(P, s, fresh=True))
+			except Exception as e:
+				ctx.violation('seq', c, f'step {t} ({_seq_describe(s)}) repeated raised {type(e).__name__}: {e}', step=t)
+				return
+			again = _f4bits(R2 if R2 is not None else [v for _, _, v in cells2])
+			if again.shape != snap.shape or (again != snap).any():
+				if not _seq_judge(ctx, c, cells2, f'step {t} ({_seq_describe(s)}) repeated'):
+					ctx.violation('seq', c, f'step {t} ({_seq_describe(s)}): the same call on the same objects gives different bits the second time', step=t)
+				return
+			_stat('steps repeated')
+		if not unchanged(before, t, st) or aliased(t, st):
+			return
+	# the collections hold what the harness recorded (its own sanity, and nothing was written through a retained reference)
+	for k in range(len(P.colls)):
+		if P.held(k) != P.recorded(k):
+			ctx.violation('seq', c, f'at the end of the script collection {k} ({P.conts[k]}) holds {P.held(k)} but the caller put {P.recorded(k)} there')
+			return
+
+
+def _seq_case(rng, rnd, nsteps, cli=False, hdf5=False, thread=0, conts=None, idxhow=None):
+	"""one script: a pool of k-mer sets (empty, equal, nested, overlapping; every fourth pool with values beyond a narrower
+	type), three collections (two of the same length, one of another), two or three index objects (negative indices too),
+	and nsteps steps over them, objects chosen with repetition; the generator follows the lengths so that every index
+	object is used only with collections it is valid for"""
+	wide = rnd % 4 == 0 and not cli and not hdf5
+	lift = rng.choice([2 ** 16, 2 ** 32]) if wide else 0
+	core = sorted(rng.sample(range(30), 6))
+	pool = [[], core, core[:3], core[3:], [core[0]], list(core)]
+	for _ in range(rng.randint(2, 3)):
+		pool.append(sorted(set(rng.sample(core, rng.randint(1, 5))) | set(rng.sample(range(30), rng.randint(0, 3)))))
+	if wide:
+		pool += [sorted(set(s) | {lift + x for x in rng.sample(core, 2)}) for s in pool[-2:]]
+	rng.shuffle(pool)
+	top = max(x for s in pool for x in s)
+	fit = [dt for dt in DTYPES if _fits(dt, top)]
+	dts = [rng.choice([dt for dt in DTYPES if _fits(dt, max(s, default=0))]) for s in pool]
+	n1 = rng.randint(2, 4)
+	sizes = [n1, n1, rng.choice([s for s in range(2, 7) if s != n1])]
+	rng.shuffle(sizes)
+	types = ['plain', 'plain', 'tuple', 'list', 'list', 'array', 'array', 'slice', 'i4bounds', 'annotated', 'annotated-list']
+	colls = []
+	for t, size in enumerate(sizes):
+		colls.append(dict(cont='hdf5' if hdf5 and t == 0 else conts[t] if conts else rng.choice(types), cdt=rng.choice([dt for dt in fit if dt[1] != '2' or top < 2 ** 15] or fit),
+		                  members=[rng.randrange(len(pool)) for _ in range(size)]))
+	idxs = []
+	for _ in range(rng.randint(2, 3)):
+		lim = rng.choice(sizes)
+		idxs.append(dict(how=rng.choice(['list', 'tuple', 'np', 'np32', 'npint-list']), vals=[rng.randrange(-lim, lim) for _ in range(rng.randint(1, 5))]))
+	if idxhow:
+		# index objects that fit every collection, counting from the end as well
+		lim = min(sizes)
+		idxs = [dict(how=idxhow, vals=[rng.randrange(-lim, 0)] + [rng.randrange(-lim, lim) for _ in range(rng.randint(1, 3))]) for _ in range(2)]
+	cur = [list(k['members']) for k in colls]
+	curidx = [list(x['vals']) for x in idxs]
+	content = list(range(len(pool)))      # which k-mer set each array object holds (followed like the interpreter does)
+
+	def holds(t, p):
+		return content[cur[t][p]] if colls[t]['cont'] in SEQ_BYREF else cur[t][p]
+
+	def pick_idx(L):
+		ok = [m for m, v in enumerate(curidx) if all(-L <= x < L for x in v)]
+		return rng.choice(ok) if ok and rng.random() < 0.65 else None
+
+	def compute(api=None, par=False):
+		api = api or rng.choice(['dist', 'array', 'matrix', 'matrix', 'pairwise', 'pairwise'])
+		out = rng.choice(['none', 'nan']) if par else rng.choice(['none', 'none', 'nan', 'shared', 'shared'])
+		prog = rng.choice([None, None, 'cls', 'config'])
+		if api == 'dist':
+			return dict(op='dist', a=rng.randrange(len(pool)), b=rng.randrange(len(pool)), call=rng.choice(CALLS))
+		if api == 'array':
+			return dict(op='array', q=rng.randrange(len(pool)), refs=rng.randrange(3), out=out)
+		if api == 'matrix':
+			k = rng.randrange(3)
+			return dict(op='matrix', qs=rng.randrange(3), refs=k, idx=pick_idx(len(cur[k])), chunksize=rng.choice([None, None, 1, 2, 3]), out=out, progress=prog)
+		k = rng.randrange(3)
+		return dict(op='pairwise', sigs=k, idx=pick_idx(len(cur[k])), flat=rng.random() < 0.5, out=out, progress=prog)
+
+	def mutate(last):
+		"""the caller changes an object the last computing step used (any object if there is none)"""
+		used = [last[f] for f in ('refs', 'sigs', 'qs') if last and last.get(f) is not None]
+		usedidx = [last['idx']] if last and last.get('idx') is not None else []
+		r = rng.random()
+		if r < 0.22:
+			# overwrite an array object in place: one the last step passed directly or through a collection holding references
+			objs = [last[f] for f in ('q', 'a', 'b') if last and last.get(f) is not None] + [i for t in used if colls[t]['cont'] in SEQ_BYREF for i in cur[t]]
+			for i in rng.sample(objs, len(objs)) + rng.sample(range(len(pool)), len(pool)):
+				opts = [j for j in range(len(pool)) if len(pool[j]) == len(pool[content[i]]) and pool[j] != pool[content[i]] and _fits(dts[i], max(pool[j], default=0))]
+				if opts:
+					content[i] = rng.choice(opts)
+					return dict(op='rewrite', sig=i, to=content[i])
+		r = rng.random()
+		if usedidx and r < 0.25:
+			r = 1.0
+		elif used and not any(colls[t]['cont'] in SEQ_MUTABLE + SEQ_INPLACE for t in used):
+			used = []
+		def cands(kinds, cond=lambda t: True):
+			pref = [t for t in used if colls[t]['cont'] in kinds and cond(t)]
+			return pref or [t for t in range(3) if colls[t]['cont'] in kinds and cond(t)]
+		if r < 0.6:
+			cs = cands(SEQ_MUTABLE + SEQ_INPLACE)
+			if cs:
+				t = rng.choice(cs)
+				p = rng.randrange(len(cur[t]))
+				now = pool[holds(t, p)]
+				opts = [i for i in range(len(pool)) if pool[content[i]] != now and (colls[t]['cont'] in SEQ_MUTABLE or len(pool[content[i]]) == len(now))]
+				if opts:
+					i = rng.choice(opts)
+					cur[t][p] = i if colls[t]['cont'] in SEQ_BYREF else content[i]
+					return dict(op='set', coll=t, pos=p, sig=i)
+		if r < 0.75:
+			cs = cands(SEQ_RESIZABLE, lambda t: len(cur[t]) < 7)
+			if cs:
+				t = rng.choice(cs)
+				cur[t].append(rng.randrange(len(pool)))
+				return dict(op='append', coll=t, sig=cur[t][-1])
+		if r < 0.88:
+			cs = cands(SEQ_RESIZABLE, lambda t: len(cur[t]) > 2)
+			if cs:
+				t = rng.choice(cs)
+				cur[t].pop()
+				return dict(op='pop', coll=t)
+		cs = [m for m in usedidx if idxs[m]['how'] != 'tuple'] or [m for m in range(len(idxs)) if idxs[m]['how'] != 'tuple']
+		if cs:
+			m = rng.choice(cs)
+			lim = min(len(x) for x in cur)
+			p = rng.randrange(len(curidx[m]))
+			v = rng.choice([x for x in range(-lim, lim) if x != curidx[m][p]])
+			curidx[m][p] = v
+			return dict(op='setidx', idx=m, pos=p, val=v)
+		return None
+
+	def again(st):
+		"""the step once more after a change of the caller (an index object that no longer fits the collection is dropped)"""
+		st = dict(st)
+		if st.get('idx') is not None:
+			L = len(cur[st['refs'] if st['op'] == 'matrix' else st['sigs']])
+			if not all(-L <= x < L for x in curidx[st['idx']]):
+				st['idx'] = None
+		return st
+
+	def failing():
+		api = rng.choice(['matrix', 'matrix', 'pairwise', 'array'])
+		how = rng.choice({'matrix': ['oob-index', 'bad-ref', 'bad-query', 'raising-seq', 'raising-progress', 'bad-out', 'chunk0'],
+		                  'pairwise': ['oob-index', 'bad-ref', 'raising-progress', 'bad-out'], 'array': ['bad-ref', 'raising-seq', 'bad-out']}[api])
+		base = dict(compute(api), out='shared')
+		fail = dict(base, op='fail', api=api, how=how, at=rng.randint(1, 4), idxtype=rng.choice(['list', 'np']))
+		good = dict(base)
+		f = {'matrix': 'qs', 'pairwise': 'sigs'}.get(api)
+		if f:
+			same = [t for t in range(3) if t != base[f] and len(cur[t]) == len(cur[base[f]])]
+			if same:
+				good[f] = rng.choice(same)
+				if api == 'pairwise' and good.get('idx') is not None:
+					L = len(cur[good[f]])
+					if not all(-L <= x < L for x in curidx[good['idx']]):
+						good['idx'] = None
+		else:
+			good['q'] = rng.randrange(len(pool))
+		return [fail, good]
+
+	steps = []
+	while len(steps) < nsteps:
+		r = rng.random()
+		if r < 0.2 and steps:
+			last = next((x for x in reversed(steps) if x['op'] in ('dist', 'array', 'matrix', 'pairwise')), None)
+			m = mutate(last)
+			if m:
+				steps.append(m)
+				if last:
+					steps.append(again(last))
+		elif r < 0.36:
+			steps += failing()
+		elif r < 0.42:
+			steps.append(dict(op='par', steps=[compute(par=True), compute(par=True)]))
+		else:
+			steps.append(compute())
+	if nsteps and steps[-1]['op'] not in ('dist', 'array', 'matrix', 'pairwise'):
+		steps.append(compute())
+	if cli:
+		for _ in range(rng.randint(2, 3)):
+			k = rng.randrange(3)
+			at = rng.randint(0, len(steps))
+			steps.insert(at, dict(op='cli', qs=k, rs=rng.choice([None, rng.randrange(3)]), cores=rng.choice([None, 1, 2])))
+			if rng.random() < 0.5:
+				steps.insert(at, dict(op='cli', qs=k, rs=None, cores=rng.choice([None, 2]), bad=rng.choice(['missing-rs', 'square-and-rs', 'other-k'])))
+	return dict(sigs=pool, dts=dts, colls=colls, idxs=idxs, steps=steps, omp=1 + rnd % 2, thread=thread)
+
+
+def _seq_systematic(rng, rnd0):
+	"""the small products behind the random scripts, one script each: (1) every changeable collection type x every role it
+	can play x every change the caller can make to it, between two identical calls; (2) every way a call can fail part-way x
+	api x collection type, between good calls of the same shape on the same thread and out= buffer; (3) one index object
+	(counting from the end too) / one query collection against two collections of different sizes, in both orders"""
+	rnd = rnd0
+	roles = {'matrix-refs': lambda k, m: dict(op='matrix', qs=1, refs=k, idx=m, chunksize=2, out='none', progress=None),
+	         'matrix-qs': lambda k, m: dict(op='matrix', qs=k, refs=1, idx=None, chunksize=None, out='none', progress=None),
+	         'pairwise': lambda k, m: dict(op='pairwise', sigs=k, idx=m, flat=False, out='none', progress=None),
+	         'array-refs': lambda k, m: dict(op='array', q=0, refs=k, out='none')}
+	others = ['plain', 'list', 'array', 'tuple']
+	# (1) a change of the caller between two identical calls
+	def rewrites(c, i):
+		return [j for j in range(len(c['sigs'])) if len(c['sigs'][j]) == len(c['sigs'][i]) and c['sigs'][j] != c['sigs'][i] and _fits(c['dts'][i], max(c['sigs'][j], default=0))]
+	for cont in SEQ_BYREF + SEQ_INPLACE:
+		for role in roles:
+			for change in ('set', 'append', 'pop', 'rewrite'):
+				if (change == 'set' and cont == 'tuple') or (change in ('append', 'pop') and cont not in SEQ_RESIZABLE) or (change == 'rewrite' and cont not in SEQ_BYREF):
+					continue
+				rnd += 1
+				c = _seq_case(rng, rnd, 0, conts=[cont, rng.choice(others), rng.choice(others)], idxhow='list')
+				mem = c['colls'][0]['members']
+				call = roles[role](0, None)
+				if change == 'set':
+					slots = [(p, i) for p in range(len(mem)) for i in range(len(c['sigs'])) if c['sigs'][i] != c['sigs'][mem[p]]
+					         and (cont in SEQ_MUTABLE or len(c['sigs'][i]) == len(c['sigs'][mem[p]]))]
+					if not slots:
+						continue
+					p, i = rng.choice(slots)
+					ch = dict(op='set', coll=0, pos=p, sig=i)
+				elif change == 'append':
+					ch = dict(op='append', coll=0, sig=rng.randrange(len(c['sigs'])))
+				elif change == 'rewrite':
+					slots = [(i, j) for i in set(mem) for j in rewrites(c, i)]
+					if not slots:
+						continue
+					i, j = rng.choice(slots)
+					ch = dict(op='rewrite', sig=i, to=j)
+				else:
+					if len(mem) < 3:
+						continue
+					ch = dict(op='pop', coll=0)
+				c['steps'] = [call, ch, dict(call), dict(call, out='shared')]
+				yield 'state-change-between-calls', c
+	def ratio(x, y):
+		return Fraction(len(set(x) ^ set(y)), len(set(x) | set(y)) or 1)
+	for rep in range(12):
+		# an array passed directly, overwritten in place between two identical calls (the distance to the other one changes)
+		rnd += 1
+		c = _seq_case(rng, rnd, 0, idxhow='list')
+		S = c['sigs']
+		slots = [(i, j, b) for i in range(len(S)) for j in rewrites(c, i) for b in range(len(S)) if b != i and ratio(S[i], S[b]) != ratio(S[j], S[b])]
+		if not slots:
+			continue
+		i, j, b = rng.choice(slots)
+		call = dict(op='dist', a=(i, b)[rep % 2], b=(b, i)[rep % 2], call=CALLS[rep % 3]) if rep < 6 else dict(op='array', q=i, refs=rep % 3, out='none')
+		c['steps'] = [call, dict(op='rewrite', sig=i, to=j), dict(call), dict(call)]
+		yield 'state-change-between-calls', c
+	for role in ('matrix-refs', 'pairwise'):
+		for how in ('list', 'np', 'np32', 'npint-list'):
+			rnd += 1
+			c = _seq_case(rng, rnd, 0, conts=[rng.choice(others), rng.choice(others), rng.choice(others)], idxhow=how)
+			vals = c['idxs'][0]['vals']
+			p = rng.randrange(len(vals))
+			lim = min(len(k['members']) for k in c['colls'])
+			call = roles[role](0, 0)
+			c['steps'] = [call, dict(op='setidx', idx=0, pos=p, val=rng.choice([x for x in range(-lim, lim) if x != vals[p]])), dict(call), dict(call, out='shared')]
+			yield 'state-change-between-calls', c
+	# (2) a call that fails part-way between good calls of the same shape
+	fails = {'matrix': ['oob-index', 'bad-ref', 'bad-query', 'raising-seq', 'raising-progress', 'bad-out', 'chunk0'],
+	         'pairwise': ['oob-index', 'bad-ref', 'raising-progress', 'bad-out'], 'array': ['bad-ref', 'raising-seq', 'bad-out'],
+	         'dist': ['bad-first', 'bad-second']}
+	for api in fails:
+		for how in fails[api]:
+			for cont in ('plain', 'array', 'list'):
+				rnd += 1
+				c = _seq_case(rng, rnd, 0, conts=[cont, rng.choice(others), rng.choice(others)], idxhow='list')
+				n = [len(k['members']) for k in c['colls']]
+				same = next(t for t in (1, 2) if n[t] == n[0]) if n[0] in n[1:] else 0
+				other = next(t for t in (1, 2) if t != same)
+				at = rng.randint(1, 3)
+				if api == 'matrix':
+					good = dict(op='matrix', qs=0, refs=other, idx=None, chunksize=rng.choice([None, 1, 2]), out='shared', progress=None)
+					after = dict(good, qs=same)
+				elif api == 'pairwise':
+					good = dict(op='pairwise', sigs=0, idx=None, flat=bool(rnd % 2), out='shared', progress=None)
+					after = dict(good, sigs=same)
+				elif api == 'dist':
+					good = dict(op='dist', a=rng.randrange(len(c['sigs'])), b=rng.randrange(len(c['sigs'])), call=CALLS[rnd % 2])
+					after = dict(good, b=rng.randrange(len(c['sigs'])))
+				else:
+					good = dict(op='array', q=rng.randrange(len(c['sigs'])), refs=0, out='shared')
+					after = dict(good, q=rng.randrange(len(c['sigs'])))
+				c['steps'] = [good, dict(good, op='fail', api=api, how=how, at=at, idxtype=rng.choice(['list', 'np'])), after, dict(good)]
+				c['thread'] = (0, 0, 1)[rnd % 3]
+				yield 'state-failed-call-between', c
+	# (3) one object against two collections of different sizes, both orders
+	for api in ('matrix', 'pairwise', 'array'):
+		for how in ('list', 'tuple', 'np', 'np32', 'npint-list'):
+			rnd += 1
+			c = _seq_case(rng, rnd, 0, idxhow=how)
+			n = [len(k['members']) for k in c['colls']]
+			x = 0
+			y = next(t for t in (1, 2) if n[t] != n[x])
+			if api == 'matrix':
+				mk = lambda k: dict(op='matrix', qs=3 - x - y, refs=k, idx=0, chunksize=rng.choice([None, 2]), out='none', progress=None)
+			elif api == 'pairwise':
+				mk = lambda k: dict(op='pairwise', sigs=k, idx=0, flat=bool(rnd % 2), out='none', progress=None)
+			else:
+				mk = lambda k: dict(op='array', q=1, refs=k, out='none')
+			for order in ((x, y, x), (y, x, y)):
+				yield 'state-one-object-two-collections', dict(c, steps=[mk(k) for k in order])
+
+
 def finish(ctx):
 	if _REFUSED:
 		ctx.extra['out_of_domain_forms_refused'] = dict(_REFUSED)
+	if _SEQ_STATS:
+		ctx.extra['state_sequences'] = dict(sorted(_SEQ_STATS.items()))
 
 
 KINDS = {'triple': k_triple, 'big': k_big, 'width': k_width, 'pairwise': k_pairwise,
-         'form': k_form, 'bulk': k_bulk, 'addx': k_addx, 'mid': k_mid, 'cli': k_cli}
+         'form': k_form, 'bulk': k_bulk, 'addx': k_addx, 'mid': k_mid, 'cli': k_cli, 'seq': k_seq}
 SHRINK = False
 
 
@@ -977,5 +1962,28 @@ def generate(ctx):
 		rng.shuffle(sigs)
 		ctx.count('stream:cli-dist')
 		yield 'cli', dict(sigs=sigs[:rng.randint(3, len(sigs))], mode=('square', 'qr')[rnd % 2], cores=(1, 2, 2, 1, None, 1)[rnd % 6])
+	# state and aliasing: scripts of calls over shared caller objects (and, where nothing is changed in between, the same
+	# script backwards: every object meets the collections / sizes / options in both orders)
+	def twin(c):
+		return not any(s['op'] in SEQ_CHANGES for s in c['steps'])
+	for rnd in range(ctx.pick(450, 4000)):
+		c = _seq_case(rng, rnd, rng.randint(2, 6), thread=(0, 0, 0, 1, 0, 2, 0)[rnd % 7])
+		ctx.count('stream:state-sequences')
+		yield 'seq', c
+		if twin(c):
+			ctx.count('stream:state-sequences-reversed')
+			yield 'seq', dict(c, steps=c['steps'][::-1])
+	for rep in range(ctx.pick(2, 10)):
+		for stream, c in _seq_systematic(rng, 1000 * rep):
+			ctx.count('stream:' + stream)
+			yield 'seq', c
+	for rnd in range(ctx.pick(24, 150)):
+		c = _seq_case(rng, rnd, rng.randint(2, 5), hdf5=True)
+		ctx.count('stream:state-sequences-file-backed')
+		yield 'seq', c
+	for rnd in range(ctx.pick(12, 60)):
+		c = _seq_case(rng, rnd, rng.randint(1, 3), cli=True)
+		ctx.count('stream:state-sequences-cli')
+		yield 'seq', c
 	yield 'big', dict(name='add_common_2p24')
 	yield 'big', dict(name='one_not_disjoint_2p25')
